@@ -110,6 +110,8 @@ Inductive tinstr :=
   | TFold (fid : Z) (init : Z) (args : list operand)
   | TCutoff (target : operand) (c : cutoff)
   | TExport (o : operand)                       (* the closure hands the node out: it gets a user handle *)
+  | TMemoCall (m : nat) (key : option Z)        (* call the m-th memoised function (key: a constant, or the lhs value) *)
+  | TMemoNew (f : bindfn)                      (* weak_memoize_fn called inside a closure; f has one template, the function's body *)
   | TBind (lhs : operand) (f : bindfn)
 with bindfn :=
   | BindFn (effs : list effect) (templates : list (list tinstr * operand)).
@@ -122,6 +124,12 @@ Record hfn := HFn { h_id : Z; h_effs : list effect }.
 
 (* ---------------------------------------------------------------- engine state *)
 Inductive scope := STop | SBind (b : bid).
+
+(* a function memoised with weak_memoize_fn (public.rs:342): the scope it was created in, what the
+   underlying function builds for a key (a template whose captured value is the key), and the table
+   of weak references to the nodes returned so far *)
+Record memo := Memo { m_scope : scope; m_body : list tinstr; m_ret : operand; m_table : list (Z * nid) }.
+Global Instance eta_memo : Settable _ := settable! Memo <m_scope; m_body; m_ret; m_table>.
 
 Inductive kind :=
   | KConst (v : val)
@@ -217,6 +225,7 @@ Inductive ptag :=
   | PNotInRch               (* "node was not in recompute heap" *)
   | PAbandonedWatch         (* "uninitialised var or abandoned watch node" *)
   | PInjected               (* user closure panicked *)
+  | PInvalidScope           (* "Attempted to run a closure within an invalid scope" *)
   | PUnwrapNone (site : Z)  (* Option::unwrap() on None / expect *)
   | PIndex (site : Z)       (* index out of bounds *)
   | PBorrow (site : Z)      (* RefCell already borrowed *)
@@ -241,7 +250,8 @@ Inductive event :=
   | EvEffReplace (x : vid) (v : val)
   | EvInvalidate (n : nid)
   | EvBecameNecessary (n : nid)
-  | EvBecameUnnecessary (n : nid).
+  | EvBecameUnnecessary (n : nid)
+  | EvMemoFn (m : nat) (key : Z).                           (* the underlying function of a memoised fn ran *)
 
 Record state := State {
   nodes : list node;
@@ -278,6 +288,7 @@ Record state := State {
   events : list event;            (* newest first *)
   handles : list (option nid);    (* the user's node handles (Incr clones held by the test program); None once dropped *)
   exports : list nid;             (* nodes handed out by bind closures (TExport), also held by the program *)
+  memos : list memo;              (* functions memoised with weak_memoize_fn (the program holds the closures) *)
   inv_count : nat;                (* user-function invocations so far *)
   crash_at : option nat;          (* inject a panic at this invocation *)
 }.
@@ -286,7 +297,7 @@ Global Instance eta_state : Settable _ := settable! State
    ahh_max_seen; st_status; stab_num; prop_inv; has_stack; run_ouh; new_obs; all_obs;
    disallowed_obs; cur_scope; set_during; dead_vars; num_var_sets; num_recomputed; num_created;
    num_changed; num_became_necessary; num_became_unnecessary; num_invalidated;
-   num_active_observers; debug; events; handles; exports; inv_count; crash_at>.
+   num_active_observers; debug; events; handles; exports; memos; inv_count; crash_at>.
 
 (* ---------------------------------------------------------------- monad *)
 Definition M (A : Type) : Type := state -> res A * state.
